@@ -24,6 +24,7 @@
 //	c03.drop_range_units    interpreter/compiler.go getFrameDropRange         the three quantities the drop range is computed from
 //	c04.type_of_import      wasm/module.go typeOfFunction                     the scan over the import section: counter initialisation, loop header, skip condition
 //	c05.byte_reg_rex        amd64/instr_encoding.go                            every condition under which an encoding forces a REX prefix for a byte register
+//	c07.closed_test         wasm/module_instance.go FailIfClosed + interpreter exit-code check   the tests by which running code notices a closed module
 //	c09.compiled_fields     wazevo/engine.go compiledModule, interpreter compiledFunction   field names of what is shared by all instances
 package main
 
@@ -417,6 +418,44 @@ func main() {
 			return true
 		})
 		add("c05.byte_reg_rex", fmt.Sprintf("%d assignments of an always-REX prefix; guarded: %s", forced, strings.Join(conds, " ;; ")))
+	}
+	{
+		var parts []string
+		fd := fn(*repo, "internal/wasm/module_instance.go", "FailIfClosed", "ModuleInstance")
+		if ifs, ok := fd.Body.List[0].(*ast.IfStmt); ok && ifs.Init != nil {
+			parts = append(parts, "FailIfClosed: "+src(ifs.Init)+"; "+src(ifs.Cond))
+		} else {
+			die("FailIfClosed: first statement is not `if closed := …; …`")
+		}
+		// the interpreter's handler of the exit-code check operation
+		cn := fn(*repo, "internal/engine/interpreter/interpreter.go", "callNativeFunc", "callEngine")
+		found := false
+		ast.Inspect(cn.Body, func(n ast.Node) bool {
+			cc, ok := n.(*ast.CaseClause)
+			if !ok || len(cc.List) != 1 || src(cc.List[0]) != "operationKindBuiltinFunctionCheckExitCode" {
+				return true
+			}
+			found = true
+			var conds []string
+			for _, st := range cc.Body {
+				ast.Inspect(st, func(m ast.Node) bool {
+					if ifs, ok := m.(*ast.IfStmt); ok {
+						c := src(ifs.Cond)
+						if ifs.Init != nil {
+							c = src(ifs.Init) + "; " + c
+						}
+						conds = append(conds, c)
+					}
+					return true
+				})
+			}
+			parts = append(parts, "interpreter check: "+strings.Join(conds, " | "))
+			return false
+		})
+		if !found {
+			die("callNativeFunc: no case operationKindBuiltinFunctionCheckExitCode")
+		}
+		add("c07.closed_test", strings.Join(parts, " ;; "))
 	}
 	add("c09.compiled_fields", "wazevo.compiledModule: "+structFields(*repo, "internal/engine/wazevo/engine.go", "compiledModule")+
 		" ;; interpreter.compiledFunction: "+structFields(*repo, "internal/engine/interpreter/interpreter.go", "compiledFunction"))
